@@ -101,16 +101,18 @@ Fixpoint crossing_pairs (l : list (Z * (pt * pt))) : list (Z * Z) :=
     ++ crossing_pairs t
   end.
 
-(* q contains p (even-odd): decided at the first probe point of p (vertices, then edge midpoints; all in doubled
-   coordinates) that does not lie on q; a path all of whose probes lie on q is not counted as contained *)
+(* q contains p (even-odd), i.e. p is nested inside q: every probe point of p (vertices and edge midpoints, all in
+   doubled coordinates) that does not lie on q is inside q, and there is at least one such probe.  A path that is
+   partly inside and partly outside q (possible only when solution edges cross or a ring touches itself, which the
+   crossing clause reports) is not nested inside q; a path all of whose probes lie on q is not counted either. *)
 Definition dbl (p : path) : path := map (pscale 2) p.
 Definition probes (p : path) : list pt := dbl p ++ map (fun e : pt * pt => padd (fst e) (snd e)) (cyc_edges p).
 
 Definition contains_eo (q p : path) : bool :=
   let q2 := dbl q in
-  match find (fun v => negb (on_path q2 v)) (probes p) with
-  | Some v => Z.odd (wn q2 v)
-  | None => false
+  match filter (fun v => negb (on_path q2 v)) (probes p) with
+  | [] => false
+  | off => forallb (fun v => Z.odd (wn q2 v)) off
   end.
 
 Fixpoint count_true {A} (f : A -> bool) (l : list A) : Z :=
@@ -147,6 +149,12 @@ Proof. vm_compute. reflexivity. Qed.
 Example wf_bad_orientation :
   wf_geom_check false false [[(0,0);(20,0);(20,20);(0,20)]; [(5,5);(15,5);(15,15);(5,15)]]
                             [[(0,0);(20,0);(20,20);(0,20)]; [(5,5);(15,5);(15,15);(5,15)]] = [(code_orientation, 1)].
+Proof. vm_compute. reflexivity. Qed.
+
+(* a figure of eight (outer loop fused with a hole of the other path at the touching point (4,4)) straddles the other
+   path: it is not nested inside it *)
+Example straddling_not_nested :
+  contains_eo [(8,4);(8,8);(8,10);(2,10);(2,8);(0,8);(0,4);(2,4)] [(6,4);(6,6);(4,6);(4,4);(4,0);(2,0);(2,4)] = false.
 Proof. vm_compute. reflexivity. Qed.
 
 Example wf_bowtie :
